@@ -33,6 +33,7 @@ type File struct {
 	Decoder string // ply, stl, spz, pts, splat
 	Data    []byte
 
+	Large     bool // a medium file of megabytes: cuts only around power-of-two offsets (largeCuts)
 	Medium    bool // member of the medium-file sub-scope (medium.go): selected cut positions, compact replay case
 	Ascii     bool // the body (from BodyStart) is text: cuts there are token boundaries
 	BodyStart int  // every length below BodyStart is a cut (headers and binary files: BodyStart = len)
@@ -458,15 +459,31 @@ func plyForeignBinaryQuadLast(bigEndian bool) (File, error) {
 // binary STL (80-byte header, uint32 count, 50 bytes per triangle)
 // ---------------------------------------------------------------------------------------------
 
-func stlFile(tris int) File {
+func stlFile(tris int) File { return stlFileHeader(tris, "") }
+
+// stlFileHeader: header "" = the default text; "solid…" = what CAD exporters write (a binary file
+// whose 80 header bytes are text that begins like an ascii STL), padded with blanks or NULs.
+func stlFileHeader(tris int, header string) File {
 	var b bytes.Buffer
 	hdr := make([]byte, 80)
 	copy(hdr, "verif c14 hand encoded binary stl; not the word that starts an ascii stl")
+	if header != "" {
+		hdr = make([]byte, 80)
+		if header[len(header)-1] == ' ' {
+			for i := range hdr {
+				hdr[i] = ' '
+			}
+		}
+		copy(hdr, header)
+	}
 	b.Write(hdr)
 	le := binary.LittleEndian
 	binary.Write(&b, le, uint32(tris))
 	f := File{ID: fmt.Sprintf("stl/%d-triangles", tris), Family: "stl", Decoder: "stl",
 		NVerts: 3 * tris, NPrims: tris, PosTol: 1e-12}
+	if header != "" {
+		f.ID += fmt.Sprintf("/header-%q", header)
+	}
 	f.Sections = []Section{{"header", 0}, {"triangle-count", 80}}
 	if tris > 0 {
 		f.Sections = append(f.Sections, Section{"triangles", 84})
@@ -725,6 +742,8 @@ func family(thorough bool) (files []File, errs []string) {
 	for t := 0; t <= 2; t++ {
 		add(stlFile(t), nil)
 	}
+	add(stlFileHeader(2, "solid exported by some cad tool"), nil) // NUL padded
+	add(stlFileHeader(1, "solid part 7 "), nil)                   // blank padded
 	for _, v := range []int{1, 2} {
 		for _, sh := range []int{0, 1} {
 			add(spzFile(v, sh, 3))
